@@ -16,6 +16,10 @@ def progNamed : String → Option (List Cmd)
   | "resetns" => some resetProgNoSeed
   | "step" => some stepProg
   | "stepclean" => some stepProgClean
+  | "foreign" => some [.setGlob gRng (.lcg (.glob gRng))]   -- another user of the process draws from the process-wide generators
+  | "stepshared" => some stepProgShared      -- the operations as they were BEFORE the F-11 repair (no decorator)
+  | "resetshared" => some resetProgShared
+  | "constructshared" => some constructProgShared
   | "resetcond" => some resetProgCond
   | _ => none
 
@@ -50,9 +54,13 @@ def stepD (st : St) : List String → St × String
       let put (p : Proc) : Proc := { p with inst := fun j => if j = i then initInst cfg nmne io rng sched var else p.inst j }
       ({ st with main := put st.main, solo := put st.solo }, "ok")
     | _, _, _, _, _, _, _ => (st, "bad-op")
-  | ["saverng"] => ({ st with savedRng := st.main.glob gRng }, "ok")
+  -- since the F-11 repair the state an unseeded reset continues is the INSTANCE'S OWN saved one: `saverng` remembers instance 0's,
+  -- `restorerng` hands it to instance 1 (and to the process, which no longer matters)
+  | ["saverng"] => ({ st with savedRng := (st.main.inst 0).env eOwnRng }, "ok")
   | ["restorerng"] =>
-    let put (p : Proc) : Proc := { p with glob := upd p.glob gRng st.savedRng }
+    let put (p : Proc) : Proc :=
+      { glob := upd p.glob gRng st.savedRng,
+        inst := fun k => if k = 1 then { p.inst k with env := upd (p.inst k).env eOwnRng st.savedRng } else p.inst k }
     ({ st with main := put st.main, solo := put st.solo }, "ok")
   | ["new", i, cfg, nmne, io, rng, sched, var, build] =>
     match i.toNat?, cfg.toInt?, nmne.toInt?, io.toInt?, rng.toInt?, sched.toInt?, var.toInt?, build.toInt? with
